@@ -12,7 +12,7 @@ ALLOWED_AXIOMS = {
     'ClassicalDedekindReals.sig_not_dec', 'ClassicalDedekindReals.sig_forall_dec',
     'FunctionalExtensionality.functional_extensionality_dep', 'Classical_Prop.classic',
 }
-PRIMITIVES_OK = re.compile(r'^(float|int|PrimFloat\.|Uint63\.|Float|Int63|of_uint63|normfr_mantissa|frshiftexp|ldshiftexp|next_up|next_down|add|sub|mul|div|sqrt|abs|opp|eqb|ltb|leb|compare|classify)')
+PRIMITIVES_OK = re.compile(r'^(float|int|PrimFloat\.|PrimInt63\.|Leibniz\.|Uint63\.|Float|Int63|of_uint63|normfr_mantissa|frshiftexp|ldshiftexp|next_up|next_down|add|sub|mul|div|sqrt|abs|opp|eqb|ltb|leb|compare|classify)')
 
 
 # ----------------------------------------------------------------------------- floats -> Coq
